@@ -7,6 +7,7 @@
 #include <csignal>
 #include <cstdlib>
 #include <fstream>
+#include <sstream>
 #include <sys/stat.h>
 #include <unistd.h>
 
@@ -283,7 +284,7 @@ void run(Src &src, Case &c)
     {
         std::string diag;
         Setup copy = s;
-        int rc = runIsolated(preflight, &copy, 60, &diag);
+        int rc = runIsolated(preflight, &copy, 10, &diag);
         if (rc != 0) {
             std::string token = rc == 1000 + SIGALRM ? "hang|Importer::flattenModel-pipeline" : c06CrashToken(diag);
             c.fail("C06.crash|" + token, "the resolve / validate / flatten / analyse / generate sequence killed the process (status " + std::to_string(rc) + "):\n" + diag.substr(diag.size() > 6000 ? diag.size() - 6000 : 0));
@@ -320,10 +321,23 @@ void run(Src &src, Case &c)
         }
     }
     if (!inputsValid) {
-        // the forest is valid by construction: make it visible when the validator disagrees
+        // The forest is valid by construction, with one exception the validator makes: two imports of one units_ref from one
+        // href (possible in the addModel mode only). Anything else must be visible.
+        bool onlyDuplicateUnitsImport = true;
+        std::istringstream is(inputIssues);
+        std::string line;
+        while (std::getline(is, line)) {
+            if (line.compare(0, 5, "issue") == 0 && line.find("level=0") != std::string::npos && line.find("contains multiple imported units from") == std::string::npos) {
+                onlyDuplicateUnitsImport = false;
+            }
+        }
         c.count("inputs-not-valid");
-        c.cls("inputs-not-valid");
-        also("C06.setup|inputs-not-valid", "the validator rejects a model of the forest, which is valid by construction:\n" + inputIssues);
+        if (onlyDuplicateUnitsImport) {
+            c.cls("inputs-invalid:one-units_ref-imported-twice-from-one-href");
+        } else {
+            c.cls("inputs-not-valid");
+            also("C06.setup|inputs-not-valid", "the validator rejects a model of the forest, which is valid by construction:\n" + inputIssues);
+        }
     }
 
     // ---- flatten
